@@ -28,6 +28,10 @@ def run(ctx):
     r5(ctx)
     r6(ctx)
     r7(ctx)
+    ctx.rule("C03.R8", "K4", "(= C11.R2) the timeout scan survives a worker that the SIGCHLD handler reaps under its feet: an OSError / ValueError from reading that worker's closed heartbeat file skips the worker")
+    from . import c11
+    from .common import MultiAlias
+    c11.r2(MultiAlias(ctx, {"C11.R2": "C03.R8"}))
 
 
 def signal_names(ctx):
